@@ -77,6 +77,10 @@ inductive Shape where
   | op1 (o : Op1) | op2 (o : Op2) | quant (q : Quant)
   deriving DecidableEq, Repr, Inhabited
 
+def Shape.isOp2 : Shape → Bool
+  | .op2 _ => true
+  | _ => false
+
 /-- key of the rule table: shape, whether the node's sentence is the negation of that shape,
     and the node's designation marker (`none` in the classical family) -/
 structure RuleKey where
@@ -193,7 +197,7 @@ def wholeOp (T : Tables) (sh : Shape) (a b : V) : Option V :=
 /-- evaluation for an operator rule: operands have values `a`, `b` -/
 def evalOp (T : Tables) (sh : Shape) (a b : V) : Tm → Option V
   | lhs => some a
-  | rhs => match sh with | .op2 _ => some b | _ => none
+  | rhs => if sh.isOp2 then some b else none
   | whole => wholeOp T sh a b
   | raw => none
   | bind _ _ => none
@@ -202,7 +206,7 @@ def evalOp (T : Tables) (sh : Shape) (a b : V) : Tm → Option V
 
 /-- map a pointwise template over a profile -/
 def mapProfile (T : Tables) (t : Tm) (P : List V) : Option (List V) :=
-  P.mapM (fun v => evalPt T (some v) none t)
+  mapOpt (fun v => evalPt T (some v) none t) P
 
 /-- evaluation for a quantifier rule on profile `P` (the set of values the body takes over the
     domain); `pt` is the value of the body at the witness, if the rule has one -/
@@ -388,6 +392,9 @@ def allLits : List Lit := [false, true].flatMap fun ng => L.markers.map fun d =>
 /-- closure table rows that are wrong: closes although satisfiable, or stays open although not -/
 def badClosure : List (List Lit) :=
   (L.closure.filter fun (S, c) => c == L.litsSatisfiable S).map (·.1)
+/-- rows that close although the literal set is satisfiable (the soundness half) -/
+def unsoundClosure : List (List Lit) :=
+  (L.closure.filter fun (S, c) => c && L.litsSatisfiable S).map (·.1)
 def closureTotalB : Bool := (sublists L.allLits).all fun S => (L.closure.lookup S).isSome
 
 /-- read table rows where the value read does not satisfy the (open) literal set -/
@@ -396,6 +403,26 @@ def badRead : List (List Lit) :=
       (L.closure.lookup S == some false) && !(L.T.vals.contains v && L.litsSatBy S v)).map (·.1)
 def readTotalB : Bool :=
   L.closure.all fun (S, c) => c || S.isEmpty || (L.readTable.lookup S).isSome
+
+/-- the frame rules present are justified by the frame class of the logic's models -/
+def frameRulesOKB : Bool :=
+  L.frameRules.all fun n =>
+    match L.frame with
+    | .none => false
+    | .K => false
+    | .D => n == "Serial"
+    | .T => n == "Reflexive" || n == "Serial"
+    | .S4 => n == "Reflexive" || n == "Transitive" || n == "Serial"
+    | .S5 => n == "Reflexive" || n == "Transitive" || n == "Symmetric" || n == "Serial"
+
+/-- the trunk is satisfied by any countermodel: premises carry a "designated" marker (or none),
+    the conclusion an "undesignated" one, or — classical style — is negated, which needs
+    `¬des v → des (¬v)` on the logic's own table -/
+def trunkOKB : Bool :=
+  (L.trunkPrem != some false) &&
+  (if L.trunkConcNeg then
+      L.trunkConc != some false && L.T.vals.all (fun v => L.T.isDes v || L.T.isDes (L.T.f1 .neg v))
+   else L.trunkConc == some false)
 
 end LogicData
 end Ptx
